@@ -179,6 +179,93 @@ type cpEngine struct {
 	onceDone map[*cpCell]bool
 	// varintBufs: "varintlen:<x>" -> the first cell of the buffer binary.PutVarint wrote the varint of x into
 	varintBufs map[string]*cpCell
+	// trackAtoms: keep, for the path being folded, the comparisons branched on with their operands (atoms, in
+	// the order decided, each with the number of calls recorded before it) and, for byte buffers of unknown
+	// length, where their length came from (bufInfo)
+	trackAtoms bool
+	// foldAll: module functions are folded whatever is known about their arguments
+	foldAll bool
+	// havocSlices: a call the fold does not follow may also have written the elements of a slice handed to it
+	havocSlices bool
+	// keepField: fields (of a struct type, by index) that a call the fold does not follow is taken to leave as
+	// they are; whoever sets it has to show that nothing outside the folded functions writes them
+	keepField func(t types.Type, field int) bool
+	atomInfo  map[string]cpAtom
+	atoms     []cpAtom
+	bufInfo   map[string]cpBufInfo
+	// LoopCut: when > 0, a path that enters the same block of one frame more often than this ends there ("cut"):
+	// for questions about the first turns of a loop whose trip count the fold does not know
+	LoopCut int
+}
+
+func cpResetVisits(visits map[*ssa.BasicBlock]int, b *ssa.BasicBlock) {
+	if visits[b] != 0 {
+		delete(visits, b)
+	}
+	for _, d := range b.Dominees() {
+		cpResetVisits(visits, d)
+	}
+}
+
+// cpAtom is one comparison a path branched on: X Op Y was taken to be Truth. NCalls is the number of calls
+// recorded on the path before the decision.
+type cpAtom struct {
+	ID     string
+	X, Y   cpVal
+	Op     token.Token
+	Truth  bool
+	NCalls int
+	Known  bool // X, Y, Op are filled in (false: an unknown condition that is not a comparison)
+}
+
+// cpBufInfo: a slice of unknown length made by make([]T, Len) or cut as Of[:Len]
+type cpBufInfo struct {
+	Len cpVal  // the length made, or the upper bound of the cut (nil: none given)
+	Low cpVal  // the lower bound of the cut (nil: none given)
+	Of  string // the unknown slice that was cut
+}
+
+func (e *cpEngine) noteAtom(r cpVal, x *ssa.BinOp, a, b cpVal) {
+	u, ok := r.(cpUnk)
+	if !ok {
+		return
+	}
+	switch x.Op {
+	case token.EQL, token.NEQ, token.LSS, token.LEQ, token.GTR, token.GEQ:
+	default:
+		return
+	}
+	id, op := u.ID, x.Op
+	for strings.HasPrefix(id, "!") {
+		id, op = id[1:], negOp(op)
+	}
+	// a named comparison keeps the operand order of its name
+	if e.atomInfo == nil {
+		e.atomInfo = map[string]cpAtom{}
+	}
+	if _, dup := e.atomInfo[id]; dup {
+		return
+	}
+	// the un-negated name states: X op' Y where op' is the operator of the un-negated form
+	e.atomInfo[id] = cpAtom{ID: id, X: a, Y: b, Op: op, Known: true}
+}
+
+func negOp(op token.Token) token.Token {
+	switch op {
+	case token.EQL:
+		return token.NEQ
+	case token.NEQ:
+		return token.EQL
+	case token.LSS:
+		return token.GEQ
+	case token.GEQ:
+		return token.LSS
+	case token.GTR:
+		return token.LEQ
+	case token.LEQ:
+		return token.GTR
+	}
+	return op
 }
 
 type cpAbort struct{ why string }
@@ -569,6 +656,14 @@ func (e *cpEngine) decide(cv cpVal) bool {
 	}
 	t := e.decide0()
 	e.decided[id] = t != neg
+	if e.trackAtoms {
+		at, known := e.atomInfo[id]
+		if !known {
+			at = cpAtom{ID: id}
+		}
+		at.Truth, at.NCalls = t != neg, len(e.calls)
+		e.atoms = append(e.atoms, at)
+	}
 	return t
 }
 
@@ -619,6 +714,17 @@ func (e *cpEngine) callBound(fn *ssa.Function, args []cpVal, bind []cpVal, depth
 	visits := map[*ssa.BasicBlock]int{}
 	for {
 		visits[b]++
+		if e.LoopCut > 0 {
+			if visits[b] > e.LoopCut {
+				e.fail("cut")
+			}
+			if visits[b] > 1 {
+				// another turn of the loop headed by b: the loops nested in it count their turns afresh
+				for _, d := range b.Dominees() {
+					cpResetVisits(visits, d)
+				}
+			}
+		}
 		if visits[b] > 64 {
 			e.fail("loop bound")
 		}
@@ -760,12 +866,22 @@ func (e *cpEngine) havoc(v cpVal, d int) {
 	case cpPtr:
 		if x.C != nil {
 			if s, ok := x.C.V.(cpStruct); ok {
-				for _, c := range s.F {
+				for i, c := range s.F {
+					if e.keepField != nil && e.keepField(s.T, i) {
+						continue
+					}
 					c.V = e.fresh("havoc")
 				}
-				_ = s
 			} else {
 				x.C.V = e.fresh("havoc")
+			}
+		}
+	case cpSlice:
+		if e.havocSlices {
+			for _, c := range x.Elems {
+				if c != nil {
+					c.V = e.fresh("havoc")
+				}
 			}
 		}
 	case cpIface:
@@ -893,7 +1009,14 @@ func (e *cpEngine) eval(fr *cpFrame, v ssa.Value, depth int) cpVal {
 			}
 			return sl
 		}
-		return e.resultOf(fr, v, "opaque")
+		r := e.resultOf(fr, v, "opaque")
+		if u, isU := r.(cpUnk); isU && e.trackAtoms {
+			if e.bufInfo == nil {
+				e.bufInfo = map[string]cpBufInfo{}
+			}
+			e.bufInfo[u.ID] = cpBufInfo{Len: e.get(fr, x.Len)}
+		}
+		return r
 	case *ssa.MakeClosure:
 		cl := cpClosure{}
 		if f, ok := x.Fn.(*ssa.Function); ok {
@@ -967,7 +1090,12 @@ func (e *cpEngine) eval(fr *cpFrame, v ssa.Value, depth int) cpVal {
 		}
 		return e.resultOf(fr, v, "unop")
 	case *ssa.BinOp:
-		return e.binop(x, e.get(fr, x.X), e.get(fr, x.Y))
+		a, b := e.get(fr, x.X), e.get(fr, x.Y)
+		r := e.binop(x, a, b)
+		if e.trackAtoms {
+			e.noteAtom(r, x, a, b)
+		}
+		return r
 	case *ssa.Phi:
 		return e.get(fr, x)
 	case *ssa.ChangeType:
@@ -1008,10 +1136,20 @@ func (e *cpEngine) eval(fr *cpFrame, v ssa.Value, depth int) cpVal {
 		case cpPtr, cpNil:
 			return a // pointer conversions through unsafe.Pointer keep the cell
 		case cpUnk, cpLin:
-			// an integer conversion that cannot lose bits keeps the identity
+			// an integer conversion that cannot lose bits keeps the identity; one that reinterprets the sign at
+			// the same width, or cuts bits off, gives "that value seen as T" — a name, so that what happens to a
+			// value on its way to the wire can be read off (int64(uint32(v)) is not v)
 			if fb, ok := x.X.Type().Underlying().(*types.Basic); ok {
-				if tb, ok := x.Type().Underlying().(*types.Basic); ok && fb.Info()&types.IsInteger != 0 && tb.Info()&types.IsInteger != 0 && e.P.sizeOf(tb) >= e.P.sizeOf(fb) {
-					return a
+				if tb, ok := x.Type().Underlying().(*types.Basic); ok && fb.Info()&types.IsInteger != 0 && tb.Info()&types.IsInteger != 0 {
+					fu, tu := fb.Info()&types.IsUnsigned != 0, tb.Info()&types.IsUnsigned != 0
+					fs, ts := e.P.sizeOf(fb), e.P.sizeOf(tb)
+					widenOK := ts > fs && (fu == tu || fu) || ts == fs && fu == tu
+					if widenOK {
+						return a
+					}
+					if u, isU := a.(cpUnk); isU && !strings.HasPrefix(u.ID, "cmp") {
+						return cpUnk{ID: tb.Name() + "(" + u.ID + ")", Deps: u.Deps}
+					}
 				}
 			}
 			// so do the conversions between pointers, unsafe.Pointer and uintptr (address arithmetic on an unknown address)
@@ -1527,7 +1665,7 @@ func (e *cpEngine) evalCall(fr *cpFrame, x *ssa.Call, depth int) cpVal {
 	if g == nil && cc.IsInvoke() {
 		// an interface method call on a value whose dynamic type is known
 		if iv, ok := e.get(fr, cc.Value).(cpIface); ok {
-			if m := e.P.Prog.LookupMethod(iv.T, cc.Method.Pkg(), cc.Method.Name()); m != nil && e.P.isModuleFunc(m) && m.Blocks != nil {
+			if m := e.P.Prog.LookupMethod(iv.T, cc.Method.Pkg(), cc.Method.Name()); m != nil && e.P.isModuleFunc(m) && m.Blocks != nil && (e.opaque == nil || !e.opaque(m)) {
 				args := []cpVal{iv.V}
 				for _, a := range cc.Args {
 					args = append(args, e.get(fr, a))
@@ -1547,7 +1685,7 @@ func (e *cpEngine) evalCall(fr *cpFrame, x *ssa.Call, depth int) cpVal {
 		}
 		// with nothing known about the arguments only small helpers are worth folding (a constructor of a literal, a
 		// predicate): what they build around the unknowns is still structure
-		if known || len(cc.Args) == 0 || len(g.Blocks) <= 6 {
+		if known || len(cc.Args) == 0 || len(g.Blocks) <= 6 || e.foldAll {
 			return e.finishCall(x, e.call(g, args, depth+1))
 		}
 	}
